@@ -55,4 +55,70 @@ theorem stage_execute (h : Fam c A B T q fs) (down : Downstream) (ids : List Str
         depth1 h down (b0 :: bs) i0 is aOf bOf _ hq1 hq2 hids hB', execLoop]
       exact ⟨_, rfl⟩
 
+/-- scrubbing one list element: exactly the helper `id` is removed, and the element is not empty -/
+theorem clean_elem (T i : String) (d : List (String × J))
+    (hid : "id" ∉ J.keys d) (htn : "__typename" ∉ J.keys d) (hne : d ≠ []) :
+    clean [(T, ["id"])] [] (("id", J.str i) :: d) = (d, false) := by
+  have hlk : J.lookup "__typename" (("id", J.str i) :: d) = none := by
+    simp only [J.lookup]
+    rw [Spec.lookup_none_of_not_mem htn]
+    simp
+  have hdne : d.isEmpty = false := by
+    cases d with
+    | nil => exact absurd rfl hne
+    | cons _ _ => rfl
+  have hhere : cleanHere (("id", J.str i) :: d) [(T, ["id"])] = d := by
+    unfold cleanHere
+    rw [hlk]
+    simp [J.eraseKey, eraseKey_not_mem hid]
+  rw [clean, hhere, hdne]
+
+/-- what must hold of a scrubbed element: no `id`, no `__typename`, not empty -/
+def GoodElem (d : List (String × J)) : Prop := "id" ∉ J.keys d ∧ "__typename" ∉ J.keys d ∧ d ≠ []
+
+theorem cleanList_elems (T : String) (dOf : String → List (String × J)) : ∀ (ids : List String),
+    (∀ i ∈ ids, GoodElem (dOf i)) →
+    cleanList [(T, ["id"])] [] (ids.map (fun i => J.obj (("id", .str i) :: dOf i)))
+      = (ids.map (fun i => J.obj (dOf i)), ids.isEmpty)
+  | [], _ => by simp [cleanList]
+  | i :: is, hd => by
+    have hi := hd i (by simp)
+    rw [List.map_cons, cleanList, clean_elem T i (dOf i) hi.1 hi.2.1 hi.2.2,
+      cleanList_elems T dOf is (fun x hx => hd x (by simp [hx]))]
+    simp
+
+/-- **Stage 4 — scrub**: the helper `id` is removed from EVERY element of the list under `q`; the
+    list itself stays (also when it is empty). -/
+theorem stage_scrub (T q : String) (ids : List String) (dOf : String → List (String × J))
+    (hd : ∀ i ∈ ids, GoodElem (dOf i)) :
+    cleanAll [([q], [(T, ["id"])])] [(q, .arr (ids.map (fun i => J.obj (("id", .str i) :: dOf i))))]
+      = [(q, .arr (ids.map (fun i => J.obj (dOf i))))] := by
+  have hlq : ∀ v, J.lookup q [(q, v)] = some v := by intro v; simp [J.lookup]
+  simp only [cleanAll, List.foldl_cons, List.foldl_nil, unhash, List.isEmpty_cons, Bool.false_eq_true, ↓reduceIte]
+  rw [clean, hlq]
+  simp only [cleanList_elems T dOf ids hd]
+  cases ids <;> simp [J.setKey]
+
+/-- **Stage 5 — the pipeline**: for every member of the family and every downstream that answers
+    the sub-request to `A` with the list (ids and `A`'s shares) and the ONE batch to `B` with
+    `B`'s shares, the gateway model returns the list under `q`, every element with `A`'s answers
+    followed by `B`'s — helper ids removed, no errors. -/
+theorem stage_gateway (h : Fam c A B T q fs) (down : Downstream) (ids : List String)
+    (aOf bOf : String → List (String × J)) (hq1 : '#' ∉ q.toList) (hq2 : ':' ∉ q.toList)
+    (hids : ∀ i ∈ ids, GoodId aOf bOf i)
+    (hA : down A [rqOf c (rootStep A B T q fs) []] = .ok [respA q ids aOf])
+    (hB : fsB fs ≠ [] → ids ≠ [] → down B (batchB c B T q (fsB fs) ids) = .ok (answersB bOf ids))
+    (hb0 : fsB fs = [] → ∀ i ∈ ids, bOf i = [])
+    (hd : ∀ i ∈ ids, GoodElem (aOf i ++ bOf i)) :
+    ∃ calls, gateway c {} ⟨.query, "", [], [QL T q fs]⟩ none down
+      = .ok ⟨some [(q, .arr (ids.map (fun i => J.obj (aOf i ++ bOf i))))], [], calls⟩ := by
+  obtain ⟨calls, hex⟩ := stage_execute h down ids aOf bOf hq1 hq2 hids hA hB hb0
+  refine ⟨calls, ?_⟩
+  unfold gateway plan
+  simp only [stage_sanitize h, bind, Except.bind, stage_plan h, hex, id]
+  have := stage_scrub T q ids (fun i => aOf i ++ bOf i) hd
+  have hfun : elemAB aOf bOf = fun i => J.obj (("id", .str i) :: (aOf i ++ bOf i)) := rfl
+  simp only [respAB]
+  rw [hfun, this]
+
 end PebblesVerif.FlatList
